@@ -448,7 +448,7 @@ PROPS["C18"] = {
                   "write, which no real kernel does. Enumeration is complete over the calls that touch the file's directory, per file.",
     "technique": "property-based generation of files x exhaustive syscall-level fault and kill injection with strace, oracle on file bytes/mode/exit status (rapid)",
     "tests": [
-        {"name": "TestProp", "quick": {"shards": 8, "checks": 5}, "thorough": {"shards": 16, "checks": 60}},
+        {"name": "TestProp", "quick": {"shards": 8, "checks": 4}, "thorough": {"shards": 16, "checks": 60}},
     ],
     "rule": "cases: (file content, mode); per case all kill points and error injections are enumerated (counts in coverage.extra: "
             "strace_runs, kill_points, injected_errors, faults_before_rename_completed). Non-trivial = the file parses (so -w really "
